@@ -138,6 +138,15 @@ class Evaluator:
                 return a
             if is_unknown(b):
                 return b
+            if isinstance(a, tuple) and isinstance(b, tuple) and isinstance(node.op, ast.MatMult):
+                if len(a) != len(b):
+                    return Unknown("dot of vectors of different length")
+                tot = F.const(0)
+                for x, y in zip(a, b):
+                    if is_unknown(x) or is_unknown(y):
+                        return x if is_unknown(x) else y
+                    tot = tot + need(x) * need(y)
+                return tot
             if isinstance(a, tuple) or isinstance(b, tuple):
                 return _vec_binop(node.op, a, b)
             a, b = need(a), need(b)
@@ -172,6 +181,10 @@ class Evaluator:
                 if r is not NotImplemented:
                     return r
             base = self._ev(node.value)
+            if isinstance(base, tuple):
+                r = _vec_index(base, node.slice)
+                if r is not NotImplemented:
+                    return r
             if isinstance(base, tuple) and isinstance(node.slice, ast.Constant) and isinstance(node.slice.value, int):
                 try:
                     return base[node.slice.value]
@@ -197,6 +210,35 @@ class Evaluator:
             if is_unknown(v):
                 return v
             return self.funcs[d](need(v))
+        if d == "np.diff" and len(node.args) == 1:
+            v = self._ev(node.args[0])
+            if isinstance(v, tuple):
+                return tuple(_binop(ast.Sub(), need(v[i + 1]), need(v[i])) for i in range(len(v) - 1))
+        if d in ("np.hstack", "np.concatenate") and len(node.args) >= 1 and isinstance(node.args[0], (ast.Tuple, ast.List)):
+            out = []
+            for e in node.args[0].elts:
+                v = self._ev(e)
+                if isinstance(v, tuple):
+                    out.extend(v)
+                else:
+                    out.append(v)
+            return tuple(out)
+        if d in ("np.sum", "sum") and len(node.args) >= 1:
+            v = self._ev(node.args[0])
+            if isinstance(v, tuple):
+                tot = F.const(0)
+                for x in v:
+                    if is_unknown(x):
+                        return x
+                    tot = tot + need(x)
+                return tot
+        if d in ("np.trapz", "np.trapezoid") and len(node.args) == 2:
+            y, x = self._ev(node.args[0]), self._ev(node.args[1])
+            if isinstance(y, tuple) and isinstance(x, tuple) and len(x) == len(y):
+                tot = F.const(0)
+                for i in range(len(x) - 1):
+                    tot = tot + (need(x[i + 1]) - need(x[i])) * (need(y[i]) + need(y[i + 1])) / 2
+                return tot
         if d in ZERO_CTORS:
             return F.const(0)
         if d in ONE_CTORS:
@@ -283,6 +325,37 @@ class Evaluator:
                 self.env[base] = v
 
 
+def _vec_index(vec, sl):
+    """index / slice a symbolic 1-D vector (a tuple); a leading full slice (row axis of a 2-D array whose rows are
+    treated alike) is ignored"""
+    if isinstance(sl, ast.Tuple):
+        elts = [e for e in sl.elts]
+        if elts and isinstance(elts[0], ast.Slice) and elts[0].lower is None and elts[0].upper is None and elts[0].step is None:
+            elts = elts[1:]
+        if len(elts) != 1:
+            return NotImplemented
+        sl = elts[0]
+
+    def cint(n):
+        if n is None:
+            return None
+        try:
+            v = ast.literal_eval(n)
+        except Exception:  # noqa
+            raise Unsupported("non-constant slice bound")
+        if not isinstance(v, int):
+            raise Unsupported("non-integer slice bound")
+        return v
+
+    try:
+        if isinstance(sl, ast.Slice):
+            return vec[slice(cint(sl.lower), cint(sl.upper), cint(sl.step))]
+        i = cint(sl)
+        return vec[i]
+    except (Unsupported, IndexError, ValueError, SyntaxError):
+        return NotImplemented
+
+
 def _const_pow(base, expo):
     """base ** (c * s) for a positive constant base and an exponent c*s with one
     symbol s and integer c  ->  sym('base^s') ** c."""
@@ -308,6 +381,8 @@ def _vec_binop(op, a, b):
     else:
         pairs = [(a, y) for y in b]
     out = []
+    if isinstance(op, ast.MatMult):
+        op = ast.Mult()
     for x, y in pairs:
         if is_unknown(x):
             out.append(x)
